@@ -63,7 +63,8 @@ OBJECTS = [
     (C("lih_cation_rohf.wfx"), WFN), (C("he2_ghost_psi4_1.0.molden"), WFN + GEOM), (C("water_dimer_ghost.fchk"), WFN + GEOM),
     (C("li_h_3-21G_hf_g09.fchk"), WFN), (C("peroxide_opt.fchk"), ["fchk", "xyz"]),
 ]
-MODS = [None, None, {"op": "extra_nested"}, {"op": "mo_aminusb"}, {"op": "gen_contraction"}, {"op": "title", "value": None},
+MODS = [None, None, {"op": "extra_nested"}, {"op": "extra_nones"}, {"op": "extra_nones"}, {"op": "near_integer_occs"}, {"op": "near_integer_occs"},
+        {"op": "mo_aminusb"}, {"op": "gen_contraction"}, {"op": "title", "value": None},
         # the caller changed a scalar attribute after loading (the dump must not write it back into nested extra dicts)
         {"op": "set", "attr": "energy", "value": -1.2345}, {"op": "set", "attr": "run_type", "value": "opt"},
         {"op": "set", "attr": "title", "value": "changed by the caller"}, {"op": "set", "attr": "lot", "value": "mp2"},
